@@ -21,6 +21,12 @@
   gen_body_ref_guard      bodies._resolve_reference loops `while isinstance(body, Reference) and body.ref not in references_seen`,
                           appends body.ref to references_seen in the body, and maps a remaining Reference to a ParseError
 
+  gen_kind_guards         every value read out of Schemas.classes_by_name (subscript / .get / iteration over .values()) anywhere in
+                          parser/ has its attributes used only under an isinstance test of that value (earlier operand of the same
+                          `or` as `not isinstance(v, C)`, earlier operand of the same `and` / comprehension filter as `isinstance(v, C)`,
+                          or the body of `if isinstance(v, C):`): classes of different KINDS share that table, so an unguarded
+                          `existing.values` raises AttributeError when a model is registered under an enum's class name
+
 Fail closed: a shape this script cannot recognise is emitted as false (the theorem CliThm.code_shape then no longer checks);
 a file that cannot be parsed makes the script exit 1."""
 import ast, os, sys
@@ -362,6 +368,94 @@ def fact_body_ref_guard():
     return bool(circ and init)
 
 
+def _is_isinstance(n, var, negated):
+    if negated:
+        return isinstance(n, ast.UnaryOp) and isinstance(n.op, ast.Not) and _is_isinstance(n.operand, var, False)
+    return isinstance(n, ast.Call) and u(n.func) == "isinstance" and len(n.args) == 2 and u(n.args[0]) == var
+
+
+def _attr_uses(n, var):
+    return [x for x in ast.walk(n) if isinstance(x, ast.Attribute) and isinstance(x.value, ast.Name) and x.value.id == var]
+
+
+def _unguarded(node, var, guarded):
+    """attribute reads of `var` below node that are not dominated by an isinstance test of var"""
+    bad = []
+    if isinstance(node, ast.BoolOp):
+        g = guarded
+        for v in node.values:
+            bad += _unguarded(v, var, g)
+            if _is_isinstance(v, var, negated=isinstance(node.op, ast.Or)):
+                g = True
+        return bad
+    if isinstance(node, ast.If) or isinstance(node, ast.IfExp):
+        bad += _unguarded(node.test, var, guarded)
+        gb = guarded or _is_isinstance(node.test, var, False) or (isinstance(node.test, ast.BoolOp) and isinstance(node.test.op, ast.And)
+                                                                  and any(_is_isinstance(v, var, False) for v in node.test.values))
+        body = node.body if isinstance(node.body, list) else [node.body]
+        orelse = node.orelse if isinstance(node.orelse, list) else [node.orelse]
+        ge = guarded or _is_isinstance(node.test, var, True)
+        for s_ in body:
+            bad += _unguarded(s_, var, gb)
+        for s_ in orelse:
+            bad += _unguarded(s_, var, ge)
+        return bad
+    if isinstance(node, ast.Attribute) and isinstance(node.value, ast.Name) and node.value.id == var:
+        return [] if guarded else [node]
+    for c in ast.iter_child_nodes(node):
+        bad += _unguarded(c, var, guarded)
+    return bad
+
+
+def fact_kind_guards():
+    """see module docstring; also requires that at least the two enum builders were recognised (fail closed on a rewrite)"""
+    seen_sites = 0
+    for dp, dn, fn in os.walk(os.path.join(PKG, "parser")):
+        dn.sort()
+        for f in sorted(fn):
+            if not f.endswith(".py"):
+                continue
+            tree = parse(os.path.relpath(os.path.join(dp, f), PKG))
+            for fnode in [x for x in ast.walk(tree) if isinstance(x, (ast.FunctionDef, ast.AsyncFunctionDef))]:
+                # variables bound to a value of classes_by_name
+                for st in ast.walk(fnode):
+                    if isinstance(st, ast.Assign) and len(st.targets) == 1 and isinstance(st.targets[0], ast.Name):
+                        v = st.value
+                        src = u(v)
+                        if (isinstance(v, ast.Subscript) and u(v.value).endswith("schemas.classes_by_name")) or \
+                           (isinstance(v, ast.Call) and u(v.func).endswith("schemas.classes_by_name.get")) or \
+                           (isinstance(v, ast.Call) and u(v.func).endswith("schemas.classes_by_name.pop")):
+                            seen_sites += 1
+                            var = st.targets[0].id
+                            if _unguarded(fnode, var, False):
+                                return False
+                    if isinstance(st, (ast.GeneratorExp, ast.ListComp, ast.SetComp, ast.DictComp)):
+                        for g in st.generators:
+                            if u(g.iter).endswith("schemas.classes_by_name.values()") and isinstance(g.target, ast.Name):
+                                seen_sites += 1
+                                var = g.target.id
+                                ok_filter = any(_is_isinstance(c, var, False) for c in g.ifs)
+                                elt = st.elt if not isinstance(st, ast.DictComp) else ast.Tuple(elts=[st.key, st.value], ctx=ast.Load())
+                                if _attr_uses(elt, var) and not ok_filter:
+                                    return False
+                                g0 = False
+                                for c in g.ifs:
+                                    if _unguarded(c, var, g0):
+                                        return False
+                                    if _is_isinstance(c, var, False):
+                                        g0 = True
+                    if isinstance(st, ast.For) and u(st.iter).endswith("schemas.classes_by_name.values()") and isinstance(st.target, ast.Name):
+                        seen_sites += 1
+                        if any(_unguarded(b_, st.target.id, False) for b_ in st.body):
+                            return False
+    # the two enum builders must have been seen (plus the two generator expressions of GeneratorData.from_dict)
+    for rel, cls in (("parser/properties/enum_property.py", "EnumProperty"), ("parser/properties/literal_enum_property.py", "LiteralEnumProperty")):
+        b_ = find_func(parse(rel), "build", cls=cls)
+        if b_ is None or "classes_by_name" not in u(b_):
+            return False
+    return seen_sites >= 2
+
+
 LOOPS = [("parser/properties/__init__.py", "_create_schemas"), ("parser/properties/__init__.py", "_process_models"),
          ("parser/properties/__init__.py", "build_parameters")]
 
@@ -384,7 +478,8 @@ def main():
              f"Definition gen_mkdir_parents : bool := {b(fact_mkdir_parents())}.",
              "Definition gen_retry_loops : list (list N * bool) := [%s]. (* %s *)" % (
                  "; ".join(f"({cstr(n)}, {b(fact_retry_loop(rel, n))})" for rel, n in LOOPS), ", ".join(n for _, n in LOOPS)),
-             f"Definition gen_body_ref_guard : bool := {b(fact_body_ref_guard())}."]
+             f"Definition gen_body_ref_guard : bool := {b(fact_body_ref_guard())}.",
+             f"Definition gen_kind_guards : bool := {b(fact_kind_guards())}."]
     txt = "\n".join(lines) + "\n"
     os.makedirs(os.path.dirname(OUT), exist_ok=True)
     old = None
